@@ -18,21 +18,22 @@ import (
 
 // C15 — Shutdown is graceful.
 // Scenario letters per connection: i = served one request and now idle keep-alive; h = handler parked on a gate when
-// Shutdown begins (released `delay` ms later); p = two pipelined requests, the first parked; c = served and closed by client.
+// Shutdown begins (released `delay` ms later); k = the same for the second request of a keep-alive connection; p = two pipelined requests, the first parked; c = served and closed by client.
 func init() {
 	Register(&Prop{
 		ID: "C15", NoShrink: true,
-		Rule: "Serve over an in-memory listener with 1..4 connections in scripted positions (idle keep-alive, handler in flight on a gate, pipelined with the first handler in flight, already closed) when Shutdown is called; handlers are released 0..60 ms after Shutdown began; " +
+		Rule: "Serve over an in-memory listener with 1..4 connections in scripted positions (idle keep-alive, handler of the first or of the second keep-alive request in flight on a gate, pipelined with the first handler in flight, already closed) when Shutdown is called, ReduceMemoryUsage on/off; handlers are released 0..60 ms after Shutdown began; " +
 			"monitor at Shutdown's nil return: listener refuses Dial, Serve has returned, no handler is running, every started handler's response reached its client, Done was closed while handlers were in flight, idle connections were closed; " +
 			"non-trivial = at least one handler in flight at Shutdown; distinct = distinct input",
 		Parallel: true,
 		Build: func(kind string, a [][]byte) *Case {
 			script := string(a[0])
 			delay := time.Duration(a[1][0]) * time.Millisecond
+			reduceMem := len(a) > 2 && strings.Contains(string(a[2]), "rm=1")
 			ln := fasthttputil.NewInmemoryListener()
 			gate := make(chan struct{})
 			var running, started, doneSeen atomic.Int32
-			s := &fasthttp.Server{Logger: nopLogger{}, Handler: func(ctx *fasthttp.RequestCtx) {
+			s := &fasthttp.Server{Logger: nopLogger{}, ReduceMemoryUsage: reduceMem, Handler: func(ctx *fasthttp.RequestCtx) {
 				running.Add(1)
 				defer running.Add(-1)
 				if ctx.QueryArgs().Has("hold") {
@@ -87,12 +88,18 @@ func init() {
 				case 'h':
 					fmt.Fprintf(c, "GET /?id=%d&hold=1 HTTP/1.1\r\nHost: h\r\n\r\n", i)
 					k.expect = []string{fmt.Sprintf("ok-%d", i)}
+				case 'k':
+					// a keep-alive connection whose SECOND request is inside its handler when Shutdown begins
+					fmt.Fprintf(c, "GET /?id=%d HTTP/1.1\r\nHost: h\r\n\r\n", i)
+					read(k)
+					fmt.Fprintf(c, "GET /?id=%dk&hold=1 HTTP/1.1\r\nHost: h\r\n\r\n", i)
+					k.expect = []string{fmt.Sprintf("ok-%dk", i)}
 				case 'p':
 					fmt.Fprintf(c, "GET /?id=%d&hold=1 HTTP/1.1\r\nHost: h\r\n\r\nGET /?id=%dx HTTP/1.1\r\nHost: h\r\n\r\n", i, i)
 					k.expect = []string{fmt.Sprintf("ok-%d", i)}
 				}
 			}
-			nHold := int32(strings.Count(script, "h") + strings.Count(script, "p"))
+			nHold := int32(strings.Count(script, "h") + strings.Count(script, "p") + strings.Count(script, "k"))
 			dl := time.Now().Add(2 * time.Second)
 			for started.Load() < nHold && time.Now().Before(dl) {
 				time.Sleep(time.Millisecond)
@@ -160,9 +167,9 @@ func init() {
 			}
 			impl := fmt.Sprintf("err=%v took=%dms runningAtRelease=%d runningAtReturn=%d serveReturned=%v dialRefused=%v missing=%v doneSeen=%d/%d",
 				err, took.Milliseconds(), runningAtRelease, runningAtReturn, serveReturned, dialRefused, missing, doneSeen.Load(), nHold)
-			return &Case{Impl: impl, Nontrivial: nHold > 0, Tags: []string{"shutdown"},
+			return &Case{Impl: impl, Nontrivial: nHold > 0, Tags: []string{"shutdown", fmt.Sprintf("rm=%v", reduceMem)},
 				Judge: func([]string) Verdict {
-					desc := fmt.Sprintf("script %q delay %v: %s", script, delay, impl)
+					desc := fmt.Sprintf("script %q delay %v ReduceMemoryUsage=%v: %s", script, delay, reduceMem, impl)
 					if err != nil {
 						return Verdict{VSpec, "shutdown-error-or-hang", desc}
 					}
@@ -195,9 +202,9 @@ func init() {
 			for i := 0; i < n; i++ {
 				var sc []byte
 				for j, m := 0, 1+r.Intn(4); j < m; j++ {
-					sc = append(sc, "iihhpc"[r.Intn(6)])
+					sc = append(sc, "iihhpckk"[r.Intn(8)])
 				}
-				emit("shutdown", sc, []byte{byte([]int{0, 5, 20, 60}[r.Intn(4)])})
+				emit("shutdown", sc, []byte{byte([]int{0, 5, 20, 60}[r.Intn(4)])}, B(r.Pick([]string{"rm=0", "rm=1"})))
 			}
 		},
 	})
